@@ -93,6 +93,10 @@ def gen_grouping(rng, n, kinds=('unique', 'groups', 'allsame'), allow_allsame=Tr
         labs = [x * 2 + 3 for x in labs]
     if typ == 'str':
         labs = _str_labels(labs, uni=rng.chance(0.2))
+    elif typ == 'int' and rng.chance(0.3):
+        # labels that include zero and negative numbers (falsy / sign-sensitive handling)
+        lo = sorted(set(labs))[len(set(labs)) // 2]
+        labs = [x - lo for x in labs]
     elif typ == 'float':
         # fractional labels; sometimes onset-like values that are close to each other relative to their magnitude
         labs = [1.7e9 + 2.5 * x for x in labs] if rng.chance(0.35) else [x + 0.5 for x in labs]
@@ -155,6 +159,12 @@ def build_rdms(spec, value_fn=enc, all_rdm_nan=False):
         pat_desc[k] = _container(d)
     if spec.get('order') == 'F':
         vecs = np.asfortranarray(vecs)       # a non-C-contiguous input array
+    elif spec.get('order') == 'S':
+        big = np.full((nr, 2 * vecs.shape[1] + 1), -7.0)     # a strided view into a larger buffer
+        big[:, 1::2] = vecs
+        vecs = big[:, 1::2]
+    elif spec.get('order') == 'Q':
+        vecs = mats                          # square matrices handed to the constructor
     return RDMs(vecs, dissimilarity_measure=spec.get('measure'),
                 descriptors=dict(spec.get('descriptors', {})),
                 rdm_descriptors=rdm_desc, pattern_descriptors=pat_desc)
